@@ -410,6 +410,16 @@ example : consistentB openNet false (!·) prim2 (fun p => p == 2) (evalAll openN
   decide +kernel
 
 open KV.Cycle in
+/-- the theorem itself instantiated (audit 2, C-F2: the example above only evaluates the specification): the simulator model's next
+    state of `openNet` from `[0, 0, 1]` is `[0, 0, 0]`, obtained THROUGH `nextState_is_spec` with `evalAll` as the accepted labelling -/
+example :
+    Cycle.nextState (fun op => semL2n op.code) (sigOps Gen.kindPrefixes openNet [0, 2, 1, 3, 4, 5] false) openNet false mergeCopy
+      false (fun _ => false) [false, false, true] = [false, false, false] := by
+  rw [nextState_is_spec openNet [0, 2, 1, 3, 4, 5] (by decide +kernel) (by decide +kernel) (by decide +kernel) (by decide +kernel)
+    false (fun _ => false) [false, false, true] (evalAll openNet false (!·) prim2 (fun p => p == 2)) (by decide +kernel)]
+  decide +kernel
+
+open KV.Cycle in
 /-- (7'') the form the correspondence runs evaluate: the compiled driver runs `cycleKA` (memory as an array of `c_locs_len`
     entries); it leaves the same `s` (and memory) as `cycleK`, for every well-formed netlist, order, `strip_forks` setting -/
 theorem cycle_array_form {α} (tbl : List PrefixRow) (net : Net) (order : List Nat) (strip : Bool)
